@@ -412,6 +412,14 @@ def assemble(vacuity=False, only_files=None, extra_theorems=True):
                 continue
             if kind in ("struct", "enum", "const", "trait"):
                 buf, i = collect_block(i)
+                if kind == "const":
+                    t = "\n".join(buf)
+                    mm = re.search(r"pub const (\w+):[^=]*=\s*&?\[(.*)\];", t, re.S)
+                    if mm:
+                        nm, elems = mm.group(1), re.sub(r"\s+", " ", mm.group(2)).strip().rstrip(",")
+                        A.add("\n".join(buf))
+                        A.add(f"pub proof fn lemma_const_{nm}() ensures {nm}@ == seq![{elems}] {{ assert({nm}@ =~= seq![{elems}]); }}")
+                        continue
                 if kind == "enum" and key.startswith("errors::"):
                     A.add("#[derive(Debug)]")
                 if kind == "struct" and kv.get("default") == "true":
